@@ -6,7 +6,7 @@ CONSTANTS
   OtherGas <- Other2
   Gives <- Gives3
   GasLimit = 9000
-  MaxOps = 7
+  MaxOps = 5
   MaxDepth = 3
 VIEW view
 INVARIANTS TypeOK MemoryPaid TotalMemoryPaid
